@@ -285,6 +285,9 @@ func superviseShard(mode string, casesPath, results, scratch string, n, shard, n
 			os.Exit(3)
 		}
 		startItem, startInst = item, inst+1
+		if mode == "mutate" {
+			startItem, startInst = item+1, 0 // one step per item
+		}
 	}
 }
 
